@@ -271,6 +271,14 @@ func runCfg(n *node, f *frame, funcNode, callNode *node) {
 	}
 }
 
+func isFloatOrComplex(k reflect.Kind) bool {
+	switch k {
+	case reflect.Float32, reflect.Float64, reflect.Complex64, reflect.Complex128:
+		return true
+	}
+	return false
+}
+
 func stripReceiverFromArgs(signature string) (string, error) {
 	fields := receiverStripperRxp.FindStringSubmatch(signature)
 	if len(fields) < 5 {
@@ -1388,9 +1396,11 @@ func call(n *node) {
 					}
 				default:
 					val := v(f)
-					if val.IsZero() && dest[i].Kind() != reflect.Interface {
+					if val.IsZero() && dest[i].Kind() != reflect.Interface && !isFloatOrComplex(dest[i].Kind()) {
 						// Work around a recursive struct zero interface issue.
 						// Once there is a better way to handle this case, the dest can just be set.
+						// Floating-point values are always set: IsZero reports true for
+						// negative zero, which must not be replaced by positive zero.
 						continue
 					}
 					if nod, ok := val.Interface().(*node); ok && nod.recv != nil {
